@@ -11,14 +11,16 @@ PROPS["C12"] = prop(
     "and generated histories of reset-code and password attempts; each answer is compared with a reference model written from the "
     "statement. Exhaustive over single-bit flips and truncations of every issued secret, sampled otherwise.",
     "Trusts the reference models in harness/c12*/c12_test.go, Go's crypto/hmac (used by the reference too), testing/synctest's virtual "
-    "clock and the fake store adapters (PCache / auth records written from the MySQL adapter's SQL). The {login}/{acc} wire path and "
-    "authHttpRequest are not driven: the authenticators are called directly.",
+    "clock and the fake store adapters (PCache / auth records written from the MySQL adapter's SQL). The authenticators are called directly, except in "
+    "TestC12WTokenSession, which presents issued, altered, truncated, expired and restricted tokens to a live session of the world engine "
+    "({login} wire path, Session.onLogin) and reads the token handed back; authHttpRequest is not driven.",
     "5/C12", "auth-direct",
     [Unit("TestC12Token", "server/auth/token", quick=5000, thorough=60000, shards_quick=4, shards_thorough=16),
      Unit("TestC12APIKey", "server", quick=5000, thorough=60000, shards_quick=4, shards_thorough=16, fuzz="FuzzC12APIKey", fuzztime=60),
      Unit("TestC12LongPollGate", "server", quick=600, thorough=20000, shards_quick=4, shards_thorough=16),
      Unit("TestC12Code", "server/auth/code", quick=12000, thorough=200000, shards_quick=4, shards_thorough=16),
-     Unit("TestC12Basic", "server/auth/basic", quick=8, thorough=300, shards_quick=8, shards_thorough=16)],
+     Unit("TestC12Basic", "server/auth/basic", quick=8, thorough=300, shards_quick=8, shards_thorough=16),
+     Unit("TestC12WTokenSession", "server", quick=1500, thorough=60000, shards_quick=4, shards_thorough=16)],
     ["token serial numbers are generated in 0..65535 (the signed field is 16 bits wide) and expiry stays below 2106 (32-bit seconds)",
      "two configured HMAC keys that pad/hash to the same 64-byte block are the same key (RFC 2104), not a 'foreign key'",
      "the last two seconds of a token's validity are unspecified (one-second field resolution plus the verifier's one-second margin)",
